@@ -286,9 +286,12 @@ func RunC12(r *Run) {
 		r.T.Mark()
 		w.pbScenario()
 	}
-	nscen := 2 + r.Choose("nscen", 4)
-	for s := 0; s < nscen; s++ {
+	for s := 0; s < 6; s++ {
 		r.T.Mark()
+		// the tape decides after each scenario whether another follows (0 = stop; an exhausted tape stops)
+		if s > 0 && r.Choose("another-scenario", 3) == 0 {
+			break
+		}
 		n := w.pickSource("src")
 		if n == nil {
 			break
